@@ -113,6 +113,7 @@ type history struct {
 	RangeBad string
 	EvictBad string
 	GCEmpty  bool
+	Refilled bool
 	LenOver  *opRec
 }
 
@@ -296,8 +297,42 @@ func runHistory(d histDesc) *history {
 	if o, ok := lenOver.Load().(*opRec); ok {
 		h.LenOver = o
 	}
+	// the bound must survive a Flush: after a history that flushed, refill beyond the
+	// bound with distinct long-lived keys over all shards and look at Len() and Range
+	if d.Workload == "cache" && d.N%3 == 1 {
+		flushed := false
+		for i := range h.Ops {
+			if h.Ops[i].Kind == opFlush {
+				flushed = true
+				break
+			}
+		}
+		if flushed {
+			h.Refilled = true
+			t0 := time.Now()
+			defer func() { rep.Count("wall_ms_refill_after_flush", time.Since(t0).Milliseconds()) }()
+			far := now() + int64(time.Hour)
+			for i := 0; i < h.Bound+h.Bound/4+64; i++ {
+				id := int32(1<<22 + i)
+				st.put(hkey{ID: id, S: uint64(i) * 0x9E3779B97F4A7C15}, val{ID: int64(id), Key: id, Exp: far})
+				if i%64 == 63 || (i > h.Bound && i%8 == 0) {
+					if n := st.length(); n > h.MaxLen {
+						h.MaxLen = n
+					}
+				}
+			}
+			cnt := 0
+			st.rangeAll(func(hkey, val, int64) { cnt++ })
+			if cnt > h.MaxLen {
+				h.MaxLen = cnt
+			}
+			if h.MaxLen > h.Bound && h.LenOver == nil {
+				h.LenOver = &opRec{G: -3, Kind: opLen, K: "len/range after refilling a flushed store", Key: -1, N: h.MaxLen, Call: now(), Ret: now()}
+			}
+		}
+	}
 	// every entry of a cache history expires within a few ms: watch the sweeper empty the store
-	if d.Workload == "cache" && d.N%4 == 0 && !prefilled {
+	if d.Workload == "cache" && d.N%4 == 0 && !prefilled && !h.Refilled {
 		dl := time.Now().Add(150 * time.Millisecond)
 		for time.Now().Before(dl) {
 			if st.length() == 0 {
